@@ -33,6 +33,7 @@ def dec_list(a):
     return [] if a == "" else [core.dec(x) for x in a.split(",")]
 
 
+WSX = [" ", "\t", "\n", "\r", "\x0b", "\x0c", "\x1c", "\x1f", "\x85", "\xa0", "\u2003", "\u3000", "\u2028"]
 PAD_TOKENS = ["0", "1", "00", "10", "2", "a1", "b2", "rc1", "post1", "dev0", "", "1a", "-1", "x", "0 ", "٣"[:0] + "3"]
 
 
@@ -40,7 +41,7 @@ class C03(Prop):
     id = "C03"
     lean_modules = ["PkgProofs.Props.C03"]
     theorems = [
-        "C03.contains_eq_spec", "C03.contains_eq_spec_strings", "C03.readClause_sound",
+        "C03.contains_eq_spec_strings", "C03.contains_eq_spec", "C03.parse_readClause", "C03.readClause_sound",
         "C03.contains_override_eq_spec", "C03.compare_eq_spec",
         "C03.eq_eq_spec", "C03.ne_eq_spec", "C03.eq_wild_eq_spec", "C03.ne_wild_eq_spec", "C03.compat_eq_spec",
         "C03.le_eq_spec", "C03.ge_eq_spec", "C03.lt_eq_spec", "C03.gt_eq_spec", "C03.arbitrary_eq_spec",
@@ -59,11 +60,9 @@ class C03(Prop):
     trusted = ["Version parsing/rendering (C02) and the version order (C01) as modelled in PkgModel/Version.lean",
                "str.isdigit / str.lower on the ASCII strings that reach _pad_version / _compare_arbitrary"]
     partial = [
-        "that the text Specifier.__init__ stores always reads as a clause (parseSpec s = some sp -> readClause sp != "
-        "none: the text scans as V, .* only on a bare release after ==/!=, local label only after ==/!=, two release "
-        "components after ~=) is a hypothesis of contains_eq_spec_strings, not a theorem; it is decidable per clause "
-        "and measured on every generated clause by the spec.clause correspondence (an 'unreadable-clause' answer is a "
-        "mismatch), and C12 proves the accepted language",
+        "S.parseSpec (and V.scan) are hand-written scanners mirroring Specifier._regex / Version._regex; that they accept "
+        "and capture what the regex engine does is tied by the spec.parse / spec.clause correspondence (spelled, "
+        "malformed and white-space-damaged clauses) and by C12's language theorems, not by a theorem here",
         "str.isdigit / str.lower are modelled on ASCII (the strings reaching them are rendered versions)"]
     dist_limit = 250
     budget = {"quick": (30000, 30000), "thorough": (1000000, 500000)}
@@ -88,7 +87,20 @@ class C03(Prop):
             elif k < 0.80:
                 c = R.clause_struct(rng)
                 raw = R.arbitrary_text(rng, GV.struct(rng)) if c[0] == "===" else None
-                s = R.spell_clause(rng, *c, raw) if rng.random() < 0.6 else GS.malformed_clause(rng)
+                s = R.spell_clause(rng, *c, raw)
+                j = rng.random()
+                if j < 0.45:
+                    pass
+                elif j < 0.65:
+                    s = GS.malformed_clause(rng)
+                elif j < 0.78:
+                    s = GV.malformed(rng, s)
+                elif j < 0.92:      # white space (ASCII and not) at the ends, after the operator, before `.*`, anywhere
+                    i = rng.choice([0, len(s), len(c[0]) + (1 if s[:1].isspace() else 0), max(0, len(s) - 2),
+                                    rng.randrange(len(s) + 1)])
+                    s = s[:i] + "".join(rng.choice(WSX) for _ in range(rng.choice([1, 1, 2]))) + s[i:]
+                else:
+                    s += rng.choice([".*", "*", ".", ".* ", " .*", ".*.*", "+x.*", ".*+x", "\n", " ;", ")", ";x"])
                 yield (rng.choice(["spec.parse", "spec.clause", "spec.clause"]), [core.enc(s)])
             elif k < 0.84:
                 # the two formalisations of the statement against each other: Pep440.admits (Lean, on what the model's
